@@ -52,6 +52,44 @@ pub fn scenario(prog: &str, primary_reads: bool, default_role: &str) -> Scenario
             s = s.q(&stmt("SELECT 1; DELETE FROM t1", &tg(), "primary"));
             s = s.q(&stmt("SELECT * FROM t1", &tg(), read_exp));
         }
+        "ext-seq" => {
+            // every transaction over the extended protocol: the decision is recomputed for each one
+            s = s.send_z(ext(&stmt("SELECT * FROM t1 WHERE b = 1", &tg(), read_exp)), "P B E S read");
+            s = s.send_z(ext(&stmt("INSERT INTO t1 VALUES (1)", &tg(), "primary")), "P B E S write");
+            s = s.send_z(ext(&stmt("SELECT * FROM t1 WHERE b = 2", &tg(), read_exp)), "P B E S read");
+            s = s.send_z(ext(&stmt("UPDATE t1 SET a = 2", &tg(), "primary")), "P B E S write");
+            s = s.send_z(ext(&stmt("SELECT * FROM t1 WHERE b = 3", &tg(), read_exp)), "P B E S read");
+            s = s.q(&stmt("SELECT * FROM t1", &tg(), read_exp));
+        }
+        "ext-batch-mixed" => {
+            // a write and a read prepared and run in one batch (one implicit transaction): the primary
+            let batch = |a: &str, b: &str| {
+                let mut x = wire::parse("", a, &[]);
+                x.extend(wire::bind("", "", &[], &[], &[]));
+                x.extend(wire::execute("", 0));
+                x.extend(wire::parse("", b, &[]));
+                x.extend(wire::bind("", "", &[], &[], &[]));
+                x.extend(wire::execute("", 0));
+                x.extend(wire::sync());
+                x
+            };
+            s = s.send_z(batch(&stmt("INSERT INTO t1 VALUES (1)", &tg(), "primary"), &stmt("SELECT * FROM t1", &tg(), "primary")), "P(write) B E P(read) B E S");
+            s = s.send_z(batch(&stmt("SELECT * FROM t1", &tg(), "primary"), &stmt("DELETE FROM t1", &tg(), "primary")), "P(read) B E P(write) B E S");
+            s = s.q(&stmt("SELECT * FROM t1", &tg(), read_exp));
+        }
+        "named-write-rebind" => {
+            // a write prepared under a name in one transaction, bound again after reads moved the session
+            let mut p = wire::parse("w", &stmt("INSERT INTO t1 VALUES (7)", &tg(), "primary"), &[]);
+            p.extend(wire::sync());
+            s = s.send_z(p, "P(w, write) S");
+            s = s.q(&stmt("SELECT * FROM t1", &tg(), read_exp));
+            let mut b = wire::bind("", "w", &[], &[], &[]);
+            b.extend(wire::execute("", 0));
+            b.extend(wire::sync());
+            s = s.send_z(b.clone(), "B(w) E S");
+            s = s.q(&stmt("SELECT * FROM t1", &tg(), read_exp));
+            s = s.send_z(b, "B(w) E S");
+        }
         "role-primary" => {
             s = s.q("SET SERVER ROLE TO 'primary'");
             s = s.q(&stmt("SELECT * FROM t1", &tg(), "primary"));
@@ -214,7 +252,7 @@ pub fn oracle(sc: &Scenario, out: &Outcome) -> Vec<Violation> {
 pub fn build(tier: &str) -> SimCheck {
     let thorough = tier == "thorough";
     let mut scenarios = Vec::new();
-    for prog in ["auto", "role-primary", "role-replica", "role-any", "replicas-down", "primary-down"] {
+    for prog in ["auto", "ext-seq", "ext-batch-mixed", "named-write-rebind", "role-primary", "role-replica", "role-any", "replicas-down", "primary-down"] {
         for pr in [false, true] {
             let defaults: Vec<&str> = if thorough { vec!["any", "primary", "replica"] } else { vec!["any"] };
             for d in defaults {
@@ -233,7 +271,7 @@ pub fn build(tier: &str) -> SimCheck {
         oracle: Box::new(oracle),
         bound: 1,
         limits: Limits::default(),
-        rule: "sim: 1 primary + 2 replicas, 6 programs (inferred routing over simple and extended protocol incl. transactions and recomputation, SET SERVER ROLE primary/replica/any then both protocols, all replicas down, primary down) x primary_reads on/off (x default_role in thorough), every candidate order (enumerated shuffle) with 1 deviation; plus parser off: two fresh sessions under default_role primary / replica / any".into(),
+        rule: "sim: 1 primary + 2 replicas, 9 programs (inferred routing over simple and extended protocol incl. transactions and recomputation, a sequence of extended-protocol transactions alternating reads and writes, a write and a read in one batch in both orders, a named write statement bound again after reads, SET SERVER ROLE primary/replica/any then both protocols, all replicas down, primary down) x primary_reads on/off (x default_role in thorough), every candidate order (enumerated shuffle) with 1 deviation; plus parser off: two fresh sessions under default_role primary / replica / any".into(),
         assumptions: vec!["server role read off the labelled backend address".into()],
     }
 }
